@@ -1,15 +1,20 @@
 #!/bin/bash
 # usage: tools/try_seed.sh <dir-with-patch.diff> <prop> [more props...]
 # Applies the seeded change to /repo, runs the quick check(s), and always undoes it.
+# The checks write their evidence into a scratch directory, so /verif/evidence keeps
+# describing the unchanged tree.
 set -u
 D="$1"; shift
+export GOFLAGS=-mod=mod GOPROXY=off GOSUMDB=off GOTOOLCHAIN=local; unset GOWORK
 cd /repo || exit 2
 if ! git diff --quiet; then echo "repo has uncommitted changes to tracked files; refusing"; exit 2; fi
 git apply "$D/patch.diff" || { echo "patch does not apply"; exit 2; }
-trap 'git -C /repo checkout -- . ' EXIT
+SIDE=$(mktemp -d /tmp/tryseed-XXXXXX); cp /verif/known_findings.json "$SIDE/"
+trap 'git -C /repo checkout -- . ; rm -rf "$SIDE"' EXIT
 cd /verif
+[ -x bin/rrcheck ] || ./setup.sh >/dev/null
 for P in "$@"; do
-  out=$(./check.sh "$P" quick 2>&1); rc=$?
+  out=$(bin/rrcheck -prop "$P" -tier quick -repo /repo -verif "$SIDE" 2>&1); rc=$?
   echo "== $P exit=$rc"
   echo "$out" | grep -E "^  violated|^VIOLATION|loader" | cut -c1-400
 done
